@@ -123,7 +123,7 @@ def gen_opt(rng, tier, allow_lbfgs=True):
     return o
 
 
-def gen_spec(rng, tier):
+def gen_spec(rng, tier, dup_names=None):
     n_par = int(rng.choice([0, 1, 2], p=[0.35, 0.4, 0.25]))
     params = [{"name": "D", "init": [round(float(rng.uniform(0.5, 1.5)), 3)]},
               {"name": "k", "init": [round(float(rng.uniform(0.5, 1.5)), 3), round(float(rng.uniform(0.2, 0.8)), 3)]}][:n_par]
@@ -269,8 +269,11 @@ def gen_spec(rng, tier):
         cands = [L for L in range(2, steps) if L % freq == 0]
         if cands:
             trainer["limit_train_batches"] = int(rng.choice(cands))
-    return {"seed": int(rng.integers(0, 2**31 - 1)), "models": models, "params": params, "conds": conds, "vals": vals,
-            "opt": opt, "trainer": trainer, "steps": steps, "reseed": reseed}
+    out = {"seed": int(rng.integers(0, 2**31 - 1)), "models": models, "params": params, "conds": conds, "vals": vals,
+           "opt": opt, "trainer": trainer, "steps": steps, "reseed": reseed}
+    if len(conds) >= 2 and dup_names:
+        out["dup_names"] = dup_names
+    return out
 
 
 def _gen_stage_conds(rng, n_models, n_par, n, need_param):
@@ -360,6 +363,30 @@ def gen_cases(seed, tier):
     rng2 = np.random.default_rng([seed, 7, 1])
     m = 50 if tier == "quick" else 2000
     staged = [{"spec": gen_staged_spec(rng2, tier)} for _ in range(m)]
+    # conditions that share one name (all left at a default name / one name per kind): the log keys coincide, the loss must
+    # still be the weighted sum over all of them
+    rng3 = np.random.default_rng([seed, 7, 2])
+    for i in range(20 if tier == "quick" else 600):
+        for _ in range(20):
+            sp = gen_spec(rng3, tier, dup_names=("all" if i % 2 else "kind"))
+            if sp.get("dup_names"):
+                break
+        single.append({"spec": sp})
+    # long runs (more than 1000 optimizer steps) with a scheduler frequency that does not divide 1000
+    rng4 = np.random.default_rng([seed, 7, 3])
+    for i in range(2 if tier == "quick" else 24):
+        for _ in range(200):
+            sp = gen_spec(rng4, tier)
+            if sp["opt"]["cls"] in ("SGD", "Adam") and not sp["reseed"] and len(sp["conds"]) <= 2 \
+                    and all(c["kind"] in ("pinn", "param", "periodic") for c in sp["conds"]):
+                break
+        fr = [7, 300, 400][i % 3]
+        sp["opt"]["lr"] = 0.003
+        sp["opt"]["sched"] = {"cls": "ExponentialLR", "args": {"gamma": 0.97 if fr == 7 else 0.7}, "freq": fr}
+        sp["vals"], sp["trainer"] = [], {}
+        sp["steps"] = int(rng4.integers(1210, 1330))
+        sp["long"] = True
+        single.append({"spec": sp})
     # interleave, so that every worker process sees staged and single-fit cases in a mixed order
     out, k = [], max(1, n // m)
     for i, c in enumerate(single):
